@@ -71,6 +71,17 @@ func c03Specs(tier string, seed int) []c03Spec {
 	for _, b := range [][]string{{"A", "Ag"}, {"Ag", "A"}, {"Ag", "A2", "A"}, {"Ao", "A"}, {"Ao", "A2", "B"}, {"A", "Ao", "A2"}, {"Bo", "B", "A"}, {"Ao", "Bo", "A"}, {"Bo", "Ao", "B"}, {"A", "B", "Ao"}, {"As", "A"}, {"A", "As", "Ag"}, {"Ag", "As", "As"}} {
 		out = append(out, c03Spec{Kind: "seq", Batch: b})
 	}
+	// every ordered pair of feature lines: scheduled / automatic irrigation, precipitation correction, another
+	// missing-value code, groundwater sources, the other project (soil table with other column order)
+	feat := []string{"A", "C", "Ca", "Ap", "An", "As", "Ag"}
+	for _, x := range feat {
+		for _, y := range feat {
+			if x != y && !(x == "A" && y == "C") && !(x == "C" && y == "A") {
+				out = append(out, c03Spec{Kind: "seq", Batch: []string{x, y}})
+			}
+		}
+	}
+	out = append(out, c03Spec{Kind: "seq", Batch: []string{"C", "C", "Ca"}}, c03Spec{Kind: "seq", Batch: []string{"Ap", "A", "Ap"}}, c03Spec{Kind: "seq", Batch: []string{"C", "Ca", "C"}})
 	out = append(out, c03Spec{Kind: "e3", Batch: []string{"Ao", "A2", "Bo"}, Conc: 2, Bound: bound, Days: 3}, c03Spec{Kind: "e3", Batch: []string{"Bo", "A"}, Conc: 2, Bound: -1, Days: 2}, c03Spec{Kind: "e3", Batch: []string{"Ag", "A"}, Conc: 2, Bound: -1, Days: 2}, c03Spec{Kind: "e3", Batch: []string{"As", "A"}, Conc: 2, Bound: -1, Days: 2})
 	out = append(out, c03Spec{Kind: "race", Conc: 4}, c03Spec{Kind: "race", Conc: 8})
 	// a project without configuration file (the first run generates one on disk): both orders of two lines with different overrides
@@ -179,7 +190,8 @@ func c03Run(raw json.RawMessage, c *mc.Ctx) {
 		for i, n := range sp.Batch {
 			args := append(strings.Fields(w.Lines[n]), "resultfolder="+filepath.Join(root, "out", fmt.Sprintf("seq%d", i)))
 			got := proj.RunSession(session, root, args, fmt.Sprintf("[%d]", i), nil)
-			ref := proj.Run(root, append(strings.Fields(w.Lines[n]), "resultfolder="+filepath.Join(root, "out", "ref")), nil)
+			// reference: the line as the only run of a fresh process (state kept at package level starts empty as well)
+			ref := proj.RunFresh(root, append(strings.Fields(w.Lines[n]), "resultfolder="+filepath.Join(root, "out", "ref")))
 			c.Trace(2)
 			c.Transition(1)
 			c.Eval(1)
